@@ -1,0 +1,45 @@
+//go:build verif
+
+package irconv
+
+// Verification hooks (build tag `verif`): thin, add-only wrappers that let an
+// external harness drive unexported pieces of the converter. Not part of the API.
+
+import (
+	"errors"
+	"go/ast"
+
+	"github.com/quasilyte/go-ruleguard/ruleguard/ir"
+)
+
+// VerifExpandMacro runs localDefine on assign (`name := func(...) bool { return ... }`) and then
+// expandMacro on call, inside a converter whose current group has the given matcher name.
+// The returned expression's Src is the printed expansion (convertFilterExpr sets it from the
+// expanded AST). Conversion errors are returned as err; any other panic propagates.
+func VerifExpandMacro(ctx *Context, matcherName string, assign *ast.AssignStmt, call *ast.CallExpr) (result ir.FilterExpr, err error) {
+	defer func() {
+		rv := recover()
+		if rv == nil {
+			return
+		}
+		if convErr, ok := rv.(convError); ok {
+			err = convErr.err
+			return
+		}
+		panic(rv) // not our panic
+	}()
+	conv := &converter{
+		types: ctx.Types,
+		pkg:   ctx.Pkg,
+		fset:  ctx.Fset,
+		src:   ctx.Src,
+	}
+	conv.dslPkgname = "dsl"
+	conv.group = &ir.RuleGroup{MatcherName: matcherName}
+	conv.localDefine(assign)
+	macro := conv.findLocalMacro(call)
+	if macro == nil {
+		return result, errors.New("verif: the call does not name the defined macro")
+	}
+	return conv.expandMacro(macro, call), nil
+}
